@@ -18,7 +18,7 @@ def prepare(files):
         dst = os.path.join(d, 'marwood', f)
         body = open(src).read()
         with open(dst, 'a') as fh:
-            fh.write('\n#[cfg(kani)]\nmod verif_kani {\n' + body + '\n}\n')
+            fh.write('\n#[cfg(kani)]\npub(crate) mod verif_kani {\n' + body + '\n}\n')
     return d
 
 
@@ -57,7 +57,7 @@ def run(prop, harnesses, tier, seed, ev):
     hs = [h for h in harnesses if tier == 'thorough' or h.get('tier', 'quick') == 'quick']
     if not hs:
         return []
-    d = prepare([h['file'] for h in hs])
+    d = prepare([h['file'] for h in hs] + sum((h.get('also_files', []) for h in hs), []))
     violations = []
     try:
         # first harness alone (builds the crate once), the rest in parallel
